@@ -85,6 +85,10 @@ static PROGRESS: AtomicU64 = AtomicU64::new(0);
 static CUR_INDEX: AtomicU64 = AtomicU64::new(0);
 
 fn start_watchdog(limit_s: u64) {
+    let limit_s = std::env::var("VERIF_WATCHDOG_S")
+        .ok()
+        .and_then(|v| v.parse().ok())
+        .unwrap_or(limit_s);
     std::thread::spawn(move || {
         let mut last = PROGRESS.load(Ordering::Relaxed);
         let mut since = std::time::Instant::now();
